@@ -615,6 +615,10 @@ class DataFrameSchemaBackend(PolarsSchemaBackend):
             subset = [
                 x for x in lst if x in get_lazyframe_column_names(check_obj)
             ]
+            if not subset:
+                # none of these columns is in the frame (their absence is
+                # reported by the column presence check)
+                continue
             duplicates = check_obj.select(subset).collect().is_duplicated()
             if duplicates.any():
                 failure_cases = check_obj.filter(duplicates)
